@@ -7,6 +7,7 @@ CONSTANTS
   MaxUmi = 2
   Indexes = {"single", "empty"}
   Limit = 60
+  Shapes = {"rr"}
   RequireSafe = TRUE
   Variant = "drop_empty"
 INVARIANT Inv_C04_QTotal
